@@ -485,7 +485,11 @@ func runC13Quiet(env *sim.Env) {
 	var body []stmt
 	for i := 0; i < n; i++ {
 		v := fmt.Sprintf("q%d", i)
-		switch t.Choose(6) {
+		switch t.Choose(7) {
+		case 6:
+			// isset() swallows the failure of an exec'd template that was raised below a let, an if-let and
+			// a range: the statement succeeds, and what the failure unwound must be back in place
+			body = append(body, stmt{src: fmt.Sprintf(`{{%s := isset(exec("/qfail.jet")[0])}}`, v)})
 		case 0:
 			body = append(body, stmt{src: fmt.Sprintf(`{{%s := includeIfExists("/piece%d.jet")}}`, v, i%2), out: fmt.Sprintf("[piece%d]", i%2)})
 		case 1:
@@ -549,9 +553,10 @@ func runC13Quiet(env *sim.Env) {
 			want += fmt.Sprintf("[c:E%d]", failAt)
 		}
 	}
-	want += "<Z>|-|outer0"
+	want += "<Z>|-|ctx|outer0"
 	files := map[string]string{
-		"/quiet.jet":  `{{outer := "outer0"}}<A>{{try}}` + src.String() + catch + `{{end}}<Z>|{{if isset(e)}}leak{{else}}-{{end}}|{{outer}}`,
+		"/qfail.jet":  `{{outer := "inner"}}{{if w := 1; true}}{{if z := 2; true}}{{range ints(7, 8)}}{{nosuchq}}{{end}}{{end}}{{end}}`,
+		"/quiet.jet":  `{{outer := "outer0"}}<A>{{try}}` + src.String() + catch + `{{end}}<Z>|{{if isset(e)}}leak{{else}}-{{end}}|{{.}}|{{outer}}`,
 		"/piece0.jet": "[piece0]",
 		"/piece1.jet": "[piece1]",
 	}
@@ -596,7 +601,7 @@ func runC13Quiet(env *sim.Env) {
 		})
 		var b strings.Builder
 		var xerr error
-		pc := sim.Guard(func() { xerr = tm.Execute(&b, vm, nil) })
+		pc := sim.Guard(func() { xerr = tm.Execute(&b, vm, "ctx") })
 		pools.AbandonOutstanding()
 		got := b.String()
 		env.Event("quiet round %d -> %q err=%v", round, got, xerr)
